@@ -43,8 +43,9 @@ type Op struct {
 	FixedStr int `json:"fixed_str,omitempty"`
 	// Foreign > 0: the element list additionally holds, at that position, an element whose declared
 	// data type has no constructor of its own (dateTimeMicroseconds), carried by an unsigned64 value
-	// object - the only way an application can put such an element into a record. Not compared with
-	// the reference encoding either; lengths, buffers and the agreement of the add paths are.
+	// object - the only way an application can put such an element into a record. The add is refused
+	// (since D32) and leaves the set as it was; were it accepted, it is not compared with the
+	// reference encoding, but lengths, buffers and the agreement of the add paths are.
 	Foreign int `json:"foreign,omitempty"`
 	// Wrap > 0: the element at that position is handed over inside an application-defined type that
 	// embeds the library's element (a legitimate implementation of the public interface)
@@ -227,6 +228,17 @@ func play(c Case, forcePath int, st *Stats) ([]byte, *ev.Failure) {
 				m.ops = append(m.ops, oo)
 				break
 			}
+			if err != nil && o.Foreign > 0 && !m.tpl {
+				// an element of a data type the library has no encoder for is refused (C09 judges that
+				// it is not sent as zeros): the set stays as it was, through every add path
+				if st != nil {
+					st.refusedAdd = true
+				}
+				oo := o
+				oo.Path = path
+				m.ops = append(m.ops, oo)
+				break
+			}
 			if err != nil {
 				return nil, ev.Failf("op %d add (path %d, %d elements): %v", i, path, len(o.Fields), err)
 			}
@@ -352,7 +364,7 @@ func play(c Case, forcePath int, st *Stats) ([]byte, *ev.Failure) {
 					fresh.PrepareSet(ct, fo.ID)
 					ft, fid = fo.Tpl, fo.ID
 				case "add":
-					if err := add(fresh, fo, ft, fid, fo.Path); err != nil && fo.Bad == "" {
+					if err := add(fresh, fo, ft, fid, fo.Path); err != nil && fo.Bad == "" && fo.Foreign == 0 {
 						return nil, ev.Failf("fresh-set replay: %v", err)
 					}
 				case "update":
